@@ -108,7 +108,7 @@ func (playWorld) Gen(seed uint64, tier string) core.Scenario {
 		var evs []PlayEv
 		n := r.Range(0, maxEv)
 		if hugeCount {
-			n = 35000
+			n = 45000
 			pattern = 0
 		} else if maxEv == 4500 {
 			pattern = 0 // few distinct ticks: every distinct time costs a (thread-locked) sleep
